@@ -5,7 +5,7 @@ Property theorems only (helper lemmas: PdfVerif/Lemmas/Paths.lean).
 Model  = PdfVerif/Model/Paths.lean  (what pdfminer does: flat `curpath`, operator-letter string, regex split)
 Spec   = PdfVerif/Spec/Paths.lean   (what the property demands: sub-path records, `shapeOf`)
 -/
-import PdfVerif.Lemmas.Paths
+import PdfVerif.Lemmas.PathsProg
 
 set_option linter.constructorNameAsVariable false
 
@@ -85,6 +85,89 @@ theorem C16_paint_path_statement_cex : ¬ C16_paint_path_statement := by
   simp only [C16_rect_pts_cex.1, C16_rect_pts_cex.2] at h2
   revert h2
   decide +kernel
+
+/-! ## Whole programs -/
+
+/-- FULL statement (DESIGN section 6, `C16_shapes`): for every page set-up and every well-formed program,
+the interpreter model run on the program's content-stream tokens reports, after dropping the shapes of
+zero-segment sub-paths, exactly the shapes the specification demands. -/
+def C16_shapes_statement : Prop :=
+  ∀ (rot : Int) (mb : Rect) (res : List (String × CsSpec)) (prog : List SOp),
+    devOk (initSpaces res) → specWf rot mb res prog = true →
+    ∃ shapes, runPage rot mb res (progTokens prog) = .ok shapes ∧
+      shapes.filter hasSeg = specPage rot mb res prog
+
+/-- Proved version, by induction over programs with the simulation invariant `Sim` (`curpath` = encoding
+of the sub-paths since the last painting operator / `n`; graphics state, saved states and colour spaces
+equal; operand stack arbitrary).  Excluded with explicit decidable hypotheses/projections:
+* the ORDER of a rectangle's four points (`eraseRectPts`; open finding `ltrect-pts-canonical-order`),
+* `supported`: no pattern colour (open finding `pattern-colour-not-recorded`) and `sc`-family operand
+  counts 1, 3, 4 (pdfminer ignores `sc` in colour spaces with another number of components). -/
+theorem C16_shapes_partial (rot : Int) (mb : Rect) (res : List (String × CsSpec)) (prog : List SOp)
+    (hdev : devOk (initSpaces res)) (hwf : specWf rot mb res prog = true)
+    (hsup : prog.all supported = true) :
+    ∃ shapes, runPage rot mb res (progTokens prog) = .ok shapes ∧
+      (shapes.filter hasSeg).map eraseRectPts = (specPage rot mb res prog).map eraseRectPts := by
+  obtain ⟨x0, y0, x1, y1⟩ := mb
+  simp only [specWf] at hwf
+  obtain ⟨st', he, hs'⟩ := sim_run (initSpaces res) hdev prog _ _
+    (sim_init (pageCtm rot x0 y0 x1 y1) res hdev) hwf hsup
+  refine ⟨st'.out, ?_, ?_⟩
+  · simp only [runPage, he]
+  · simpa [specPage] using hs'.out
+
+/-- The hypotheses of `C16_shapes_partial` are satisfiable by a non-trivial program:
+`2 0 0 2 10 20 cm q 0.5 w [3 2] 0 d 1 0 0 RG /DeviceCMYK cs 0 0 0 1 sc 1 2 m 3 4 l 5 6 7 8 9 10 c h
+ 1 1 5 5 re 7 7 l B* Q 0 0 m 1 1 l n 9 9 m 8 8 l s`. -/
+def exampleProg : List SOp :=
+  [.cm 2 0 0 2 10 20, .q, .w (1/2), .d [3, 2] 0, .rgb true 1 0 0, .cs false "DeviceCMYK",
+   .sc .sc false [0, 0, 0, 1] none, .m (1, 2), .seg (.l (3, 4)), .seg (.c (5, 6) (7, 8) (9, 10)), .h,
+   .re 1 1 5 5, .seg (.l (7, 7)), .paint .Bstar false true true true, .Q,
+   .m (0, 0), .seg (.l (1, 1)), .n, .m (9, 9), .seg (.l (8, 8)), .paint .s true true false false]
+
+example : devOk (initSpaces []) ∧ specWf 90 (0, 0, 612, 792) [] exampleProg = true ∧
+    exampleProg.all supported = true ∧ (specPage 90 (0, 0, 612, 792) [] exampleProg).length = 4 := by
+  refine ⟨⟨by decide +kernel, by decide +kernel, by decide +kernel⟩, by decide +kernel, by decide +kernel,
+    by decide +kernel⟩
+
+/-- Counter-example 1 to the full statement (rectangle drawn vertical side first). -/
+def cexProg1 : List SOp :=
+  [.m (0, 0), .seg (.l (0, 1)), .seg (.l (2, 1)), .seg (.l (2, 0)), .h, .paint .S false true false false]
+
+/-- Counter-example 2 (pattern colour: the model keeps the stale gray 1/2). -/
+def cexProg2 : List SOp :=
+  [.gray false (1/2), .cs false "Pattern", .sc .scn false [] (some "P0"), .m (0, 0), .seg (.l (1, 1)),
+   .paint .f false false true false]
+
+theorem C16_shapes_statement_cex : ¬ C16_shapes_statement := by
+  intro h
+  obtain ⟨shapes, h1, h2⟩ := h 0 (0, 0, 612, 792) [] cexProg1
+    ⟨by decide +kernel, by decide +kernel, by decide +kernel⟩ (by decide +kernel)
+  have hr : (match runPage 0 (0, 0, 612, 792) [] (progTokens cexProg1) with | .ok s => s | .error _ => []) =
+      shapes := by rw [h1]
+  rw [← hr] at h2
+  revert h2
+  decide +kernel
+
+/-- The pattern colour is lost: the model reports the stale colour, the specification the pattern. -/
+theorem C16_pattern_cex :
+    (match runPage 0 (0, 0, 612, 792) [] (progTokens cexProg2) with
+      | .ok s => s.map (·.ncolor) | .error _ => []) = [some (.comps [1/2])] ∧
+    (specPage 0 (0, 0, 612, 792) [] cexProg2).map (·.ncolor) = [some (.pattern "P0" [])] ∧
+    specWf 0 (0, 0, 612, 792) [] cexProg2 = true := by
+  refine ⟨by decide +kernel, by decide +kernel, by decide +kernel⟩
+
+/-- Counter-example 3 (`/D2 cs 0.25 0.75 sc` in a 2-component DeviceN space: `sc` is ignored). -/
+def cexProg3 : List SOp :=
+  [.gray false (1/2), .cs false "D2", .sc .sc false [1/4, 3/4] none, .m (0, 0), .seg (.l (1, 1)),
+   .paint .f false false true false]
+
+theorem C16_arity_cex :
+    (match runPage 0 (0, 0, 612, 792) [("D2", .devn 2)] (progTokens cexProg3) with
+      | .ok s => s.map (·.ncolor) | .error _ => []) = [some (.comps [1/2])] ∧
+    (specPage 0 (0, 0, 612, 792) [("D2", .devn 2)] cexProg3).map (·.ncolor) = [some (.comps [1/4, 3/4])] ∧
+    specWf 0 (0, 0, 612, 792) [("D2", .devn 2)] cexProg3 = true := by
+  refine ⟨by decide +kernel, by decide +kernel, by decide +kernel⟩
 
 /-! ## Tables regenerated from the Python source agree with ISO 32000-1 -/
 
